@@ -45,6 +45,7 @@ MIN_NONTRIVIAL = 200
 REQUIRED_COUNTERS = ["tracebacks_checked", "callsite_frames_checked", "python_frames_checked", "text_error_pages", "html_error_pages", "format_exceptions_pages", "warnings_cases", "multi_template_tracebacks"]
 REQUIRED_COUNTERS += ["edit_and_recompile_rounds"]
 REQUIRED_COUNTERS += ["last_line_pages"]
+RULE += " a magic encoding comment as first line of three in ten documents."
 RULE += " module-level warnings when an up-to-date module file is reused for a template file at another path (copied directory, second spelling of the path)."
 REQUIRED_COUNTERS += ["warning_reused_module_loads"]
 
@@ -137,6 +138,9 @@ def build(r, pos, nl):
     planted line), construct_raises=bool (exception already at construction))"""
     main = Doc(nl)
     T = {"templates": {}, "top": "/main.html", "construct": False, "pyframe": None}
+    if r.random() < 0.3:
+        # a magic encoding comment is a line of the template like any other
+        main.add("## -*- coding: utf-8 -*-" + nl)
     filler(r, main, r.randint(0, 4))
     chain = []
     M = "/main.html"
@@ -521,6 +525,8 @@ def run_warning_case(r, wname, action, path, nl, res):
     L = _st["TemplateLookup"]
     construct, cat = WARNERS[wname]
     d0 = Doc(nl)
+    if r.random() < 0.3:
+        d0.add("## -*- coding: utf-8 -*-" + nl)
     filler(r, d0, r.randint(0, 4))
     construct = construct.replace("\n", nl)
     ln = d0.add(construct + nl)
